@@ -22,6 +22,7 @@ import iso_gen as G
 import iso_core as C
 
 SEEDS = C.SEEDS
+TABLES = ()     # no generated constant table is part of this property's tie
 EXPOSING = [  # directed search: sets on which every assignment a writer makes is visible, per writer class
     {"layout": "pad", "styles": [["s1", {"color": "red", "text-align": "left"}], ["p", {"italics": True}]],
      "langs": [{"lang": "en-US", "layout": "rel_noext", "caps": [
